@@ -124,6 +124,10 @@ class Write(Contract):
                 ("if top > self.remoteWindowLeft:", "if top >= self.remoteWindowLeft:", None)]
 
 
+PENDING = {"none": [], "same": [[7, b"p"]], "other": [[9, b"p"]], "same-other": [[7, b"p"], [9, b"q"]],
+           "other-same": [[9, b"p"], [7, b"q"]]}
+
+
 class WriteExtended(Contract):
     prop = "C36"
     module = MC
@@ -131,7 +135,7 @@ class WriteExtended(Contract):
     calls = CALLS
     differential = False
     inputs = dict(data=Bytes(alphabet=b"xy", small_len=4), window=Int(lo=0, small=[0, 1, 2, 5]), rmp=Int(lo=1, small=[1, 2, 10]),
-                  closing=ForkBool(), pending=OneOf("none", "same", "other"))
+                  closing=ForkBool(), pending=OneOf("none", "same", "other", "same-other", "other-same"))
     loops = {"SSHChannel.writeExtended#0": LoopSpec(
         inv=lambda v: band(veq(v.esent + v.data, v.first), v.self.remoteWindowLeft == v.w0 - L(v.esent),
                            v.self.remoteMaxPacket == v.rmp0, L(v.data) <= v.self.remoteWindowLeft,
@@ -142,7 +146,7 @@ class WriteExtended(Contract):
         return L(i.data) >= 1
 
     def setup(self, i):
-        ext = {"none": [], "same": [[7, b"p"]], "other": [[9, b"p"]]}[i.pending]
+        ext = [list(e) for e in PENDING[i.pending]]
         ch = mkchan(self, extBuf=ext, remoteWindowLeft=i.window, remoteMaxPacket=i.rmp, closing=1 if i.closing else 0)
         n = vmin(L(i.data), i.window)
         # `unsent` counts the bytes of this call that the window lets through and that are not out yet
@@ -153,11 +157,17 @@ class WriteExtended(Contract):
 
     def _stream(S):
         ch, es = S.new.ch, S.ghost["esent"]
-        if S.i.pending == "same":
-            return band(L(es) == 0, len(ch.extBuf) == 1, ch.extBuf[0][0] == 7, veq(ch.extBuf[0][1], b"p" + S.i.data))
-        if S.i.pending == "other":
-            return band(L(es) == 0, len(ch.extBuf) == 2, ch.extBuf[1][0] == 7, veq(ch.extBuf[1][1], S.i.data),
-                        ch.extBuf[0] == [9, b"p"])
+        if S.i.pending != "none":
+            # something is already buffered: nothing is sent; the bytes join the *last* entry when that has this type and
+            # otherwise become a new last entry; every earlier entry is untouched (seeded change C36-1)
+            before = PENDING[S.i.pending]
+            want = [list(e) for e in before]
+            if want[-1][0] == 7:
+                want[-1][1] = want[-1][1] + S.i.data
+            else:
+                want.append([7, S.i.data])
+            return band(L(es) == 0, len(ch.extBuf) == len(want),
+                        *[band(ch.extBuf[k][0] == want[k][0], veq(ch.extBuf[k][1], want[k][1])) for k in range(min(len(want), len(ch.extBuf)))])
         n = vmin(L(S.i.data), S.i.window)
         rest_ok = (len(ch.extBuf) == 0) if not (L(S.i.data) > S.i.window) else (
             len(ch.extBuf) == 1 and ch.extBuf[0][0] == 7 and veq(ch.extBuf[0][1], S.i.data[n:]))
